@@ -279,4 +279,78 @@ def abi_sub_family(mode: str, version: int):
 
 
 def random_sub_family(mode: str, version: int, seed: int, n: int):
-    return []
+    """seeded random call graphs: 2-3 routines of random arity (1..4) and result kind (uint64 / none / bytes),
+    1-2 locals each, every call passes a strictly smaller first argument and is guarded, so all programs
+    terminate; calls appear in statement position, inside operands (pending values) and as arguments"""
+    out = []
+    for i in range(n):
+        rng = random.Random((seed * 7907 + i) * 13 + version)
+        e = Env(mode, version)
+        k = rng.choice([2, 2, 3])
+        names = ["R%d" % j for j in range(k)]
+        kinds = [rng.choice(["u", "u", "n", "b"]) for _ in names]
+        arity = [rng.choice([1, 2, 3, 4]) for _ in names]
+        V = {}
+        subs = {}
+
+        def call(j, narg):
+            """call of routine j with first argument narg, as an expression of its kind"""
+            extra = tuple(rng.choice([("Int", rng.randrange(5)), e.u(rng.randrange(1, 6))]) for _ in range(arity[j] - 1))
+            return ("Call", names[j], narg) + extra
+
+        def uexpr_of_call(j, narg):
+            c = call(j, narg)
+            if kinds[j] == "u":
+                return c
+            if kinds[j] == "b":
+                return ("Un", "Len", c)
+            return ("Seq", c, ("Int", 1))
+
+        for j, nm in enumerate(names):
+            params = [("val", "n")] + [("val", "a%d" % t) for t in range(1, arity[j])]
+            P = ("Param", "n")
+            dec = ("Bin", "Minus", P, ("Int", 1))
+            loc = ["%s_l%d" % (nm, t) for t in range(rng.choice([1, 2]))]
+            for v in loc:
+                V[v] = {"t": "u"}
+            st = [("Store", v, ("Bin", "Add", P, ("Int", 10 * (t + 1)))) for t, v in enumerate(loc)]
+            st.append(e.tag(rng.randrange(1, 9)))
+            tgt = rng.randrange(k)
+            tgt2 = rng.randrange(k)
+            ps = [("Param", "a%d" % t) for t in range(1, arity[j])]
+            mix = ("Nary", "Add", ("Load", loc[0])) + tuple(ps) if ps else ("Load", loc[0])
+            shape = rng.choice(["pending-left", "pending-right", "stored", "two-calls", "arg-of-call"])
+            if shape == "pending-left":
+                rec_val = ("Bin", "Add", mix, uexpr_of_call(tgt, dec))
+            elif shape == "pending-right":
+                rec_val = ("Bin", "Add", uexpr_of_call(tgt, dec), mix)
+            elif shape == "stored":
+                tmp = "%s_t" % nm
+                V[tmp] = {"t": "u"}
+                st.append(("If", P, ("Store", tmp, uexpr_of_call(tgt, dec)), ("Store", tmp, ("Int", 3))))
+                rec_val = ("Bin", "Add", ("Load", tmp), mix)
+                shape = "stored-guarded"
+            elif shape == "two-calls":
+                rec_val = ("Bin", "Add", uexpr_of_call(tgt, dec), ("Bin", "Add", ("Load", loc[-1]), uexpr_of_call(tgt2, dec)))
+            else:
+                inner = uexpr_of_call(tgt2, dec)
+                rec_val = ("Bin", "Add", uexpr_of_call(tgt, ("Bin", "Mod", inner, ("Bin", "Add", dec, ("Int", 1)))), mix) \
+                    if False else ("Bin", "Add", uexpr_of_call(tgt, dec), ("Bin", "Add", inner, mix))
+            base = ("Nary", "Add", ("Int", 7), ("Load", loc[0])) if len(loc) == 1 else ("Nary", "Add", ("Int", 7), ("Load", loc[0]), ("Load", loc[1]))
+            val = rec_val if shape == "stored-guarded" else ("If", P, rec_val, base)
+            if kinds[j] == "u":
+                body = ("Seq",) + tuple(st) + (val,)
+                if rng.random() < 0.4:
+                    body = ("Seq",) + tuple(st) + (("If", ("Bin", "Eq", P, ("Int", 0)), ("Return", base)), ("Return", rec_val if shape != "stored-guarded" else val))
+                    if shape == "stored-guarded":
+                        body = ("Seq",) + tuple(st) + (("Return", val),)
+            elif kinds[j] == "b":
+                body = ("Seq",) + tuple(st) + (("Un", "Itob", val),)
+            else:
+                body = ("Seq",) + tuple(st) + (("Un", "Pop", val), ("Assert", ("Bin", "Eq", ("Load", loc[0]), ("Bin", "Add", P, ("Int", 10)))), e.tag(9))
+            subs[nm] = _sub(params, kinds[j], body)
+        top = uexpr_of_call(0, e.u(0))
+        main = ("Seq", ("Store", "mv", e.u(7)), ("Return", ("Bin", "Add", ("Bin", "Add", ("Load", "mv"), top), ("Load", "mv"))))
+        V["mv"] = {"t": "u"}
+        out.append(("sub:rnd%d:%d" % (seed, i), prog(mode, main, V, subs), {"call_depth": 3, "max_paths": 6000}))
+    return out
